@@ -1026,6 +1026,106 @@ def branch_must_pass(P, fn_qual, cond_rx, when_true, callee_rx, to_any_exit=Fals
     return r
 
 
+# ------------------------------------------------------------------------------ bool predicate: trigger => true
+def predicate_implied_by(P, fn_qual, trigger_rx, arg_rx=None, arg=0):
+    """`fn_qual` returns bool. For every call T matching trigger_rx (argument `arg` origin matching arg_rx):
+      (a) every path from the entry to a return on which the result is not the constant `true` evaluates T
+          (removing the `_0 = true` blocks and T's own block disconnects entry from return), and
+      (b) when T yields true the function returns true: T's result is either the function result itself or is
+          branched on with the true side reaching only `_0 = true` returns.
+    Together: T(x) => fn(x), on every path."""
+    fn = P.fn(fn_qual)
+    body = P.body(fn)
+    o = Origins(body)
+    r = Res()
+    if fn['locals'][0]['ty'] != 'bool':
+        raise AnchorMissing('`%s` no longer returns bool' % fn_qual)
+    rets = set(body.return_blocks())
+
+    def defs0(bi):
+        b = body.B[bi]
+        out = []
+        for st in b['st']:
+            if st['lhs']['l'] == 0 and not st['lhs']['p']:
+                out.append(st['rv'])
+        t = b['term']
+        if t['k'] == 'call' and t['dest']['l'] == 0 and not t['dest']['p']:
+            out.append('call')
+        return out
+
+    def is_true_const(rv):
+        return rv != 'call' and rv['k'] == 'use' and rv['o']['k'] == 'const' and rv['o']['v'].get('ty') == 'bool' and str(rv['o']['v'].get('v')) == '1'
+
+    other_defs = set()
+    true_blocks = set()
+    for bi, b in enumerate(body.B):
+        if b.get('cu'):
+            continue
+        d = defs0(bi)
+        if not d:
+            continue
+        if len(d) == 1 and is_true_const(d[0]):
+            true_blocks.add(bi)
+        else:
+            other_defs.add(bi)
+    # a `_0 = true` block is final when no other definition of the result is reachable from it
+    final_true = set()
+    for bi in true_blocks:
+        rc = body.reach(body.succs(bi))
+        if not (rc & other_defs):
+            final_true.add(bi)
+    rx = re.compile(trigger_rx)
+    arx = re.compile(arg_rx) if arg_rx else None
+    trig = []
+    for bi, t in body.calls(lambda t: call_matches(t, rx)):
+        a = o.arg_str(t, arg)
+        if arx is None or arx.search(a):
+            trig.append((bi, t, a))
+    if not trig:
+        raise AnchorMissing('`%s` no longer evaluates %s(%s)' % (fn_qual, trigger_rx, arg_rx or ''))
+    for bi, t, a in trig:
+        r.site('%s @%s %s(%s)' % (fn['qual'], body.ln(bi), callee_name(t), a[:80]))
+        # (a)
+        rc = body.reach([0], final_true | {bi})
+        if rc & rets:
+            w = _witness_path(body, 0, rets, final_true | {bi})
+            r.bad('bypass:' + normalise_operand(a)[:60],
+                  '`%s` can return a value other than `true` without evaluating %s(%s): some path decides the result before this test'
+                  % (fn['qual'], callee_name(t), a[:80]), where=[body.ln(x) for x in (w or [])[:6]])
+            continue
+        # (b)
+        d = t['dest']
+        if d['l'] == 0 and not d['p']:
+            nxt = body.reach([t['t']]) if t['t'] >= 0 else set()
+            if nxt & (other_defs | true_blocks):
+                r.bad('overwritten:' + normalise_operand(a)[:60], 'the result of %s(%s) is overwritten before `%s` returns' % (callee_name(t), a[:80], fn['qual']), where=[body.ln(bi)])
+            continue
+        ok = False
+        for sb, blk in enumerate(body.B):
+            tt = blk['term']
+            if blk.get('cu') or tt['k'] != 'switch' or tt['d']['k'] not in ('copy', 'move') or tt['d']['pl']['p'] or len(tt['ts']) != 1:
+                continue
+            l = tt['d']['pl']['l']
+            srcs = {l}
+            for dd in body.defs.get(l, []):
+                if dd[0] == 'st' and dd[1]['k'] == 'use' and dd[1]['o']['k'] in ('copy', 'move') and not dd[1]['o']['pl']['p']:
+                    srcs.add(dd[1]['o']['pl']['l'])
+            if d['l'] not in srcs or d['p']:
+                continue
+            v, tgt = tt['ts'][0]
+            false_t, true_t = (tgt, tt['o']) if v == '0' else (tt['o'], tgt)
+            side = body.reach([true_t], final_true)
+            if not (side & rets):
+                ok = True
+            else:
+                r.bad('true-side:' + normalise_operand(a)[:60], 'in `%s`, when %s(%s) is true a return with a value other than the constant `true` is reachable'
+                      % (fn['qual'], callee_name(t), a[:80]), where=[blk['ln']])
+                ok = True
+        if not ok:
+            r.bad('unused:' + normalise_operand(a)[:60], 'in `%s` the result of %s(%s) neither is the result nor is branched on' % (fn['qual'], callee_name(t), a[:80]), where=[body.ln(bi)])
+    return r
+
+
 # ------------------------------------------------------------------------------ indexed writes (`v[i] = x`)
 def indexed_writes(P, fn_qual, container_rx):
     """assignments through `IndexMut::index_mut(container, idx)`: [(block, container str, index str, value str, ln)]"""
